@@ -50,6 +50,10 @@ fn is_ambiguous(s: &str) -> bool {
     if s.is_empty() {
         return true;
     }
+    if s == "<<" {
+        // plain `<<` in key position is the merge key
+        return true;
+    }
     if s == "~"
         || s.eq_ignore_ascii_case("null")
         || s.eq_ignore_ascii_case("true")
@@ -101,6 +105,19 @@ fn is_ambiguous(s: &str) -> bool {
     }
 
     false
+}
+
+/// Shapes that cannot be written as a plain scalar whatever the position: a trailing blank is dropped by
+/// the scanner, a leading U+FEFF is taken as a byte-order mark at the start of the stream, `---` / `...`
+/// followed by a blank or the end is a document marker at column 0.
+pub(crate) fn is_unsafe_plain_shape(s: &str) -> bool {
+    if s.ends_with(' ') || s.starts_with('\u{FEFF}') {
+        return true;
+    }
+    let b = s.as_bytes();
+    b.len() >= 3
+        && (&b[..3] == b"---" || &b[..3] == b"...")
+        && (b.len() == 3 || matches!(b[3], b' ' | b'\t'))
 }
 
 /// Like `is_ambiguous`, but used for VALUE position.
@@ -175,6 +192,10 @@ pub(crate) fn is_plain_value_safe(s: &str, yaml_12: bool, in_flow: bool) -> bool
         return false;
     }
 
+    // inside a flow collection the scanner rejects `-` followed by `]`, `}` or `,` after a blank
+    if in_flow && s.ends_with(" -") {
+        return false;
+    }
     let bytes = s.as_bytes();
     if bytes[0].is_ascii_whitespace() {
         return false;
